@@ -145,6 +145,28 @@ def gen_cases(tier, seed):
                 la_ = {e: {"len": r3.choice([0, 1, 1, 2, 3])} for e in base["edges"] if r3.random() < 0.8}; c["lenattr"] = True
         c["spec"] = I.spec_of(base, drop_attr=drop, extra_eattr=la_)
         cases.append(c)
+    # given weights TOGETHER with path-length factors (the given-weights encoding has its own slack bound, w_max / smallest positive factor): allowed
+    # weights far below the flow, so that a route in the small-factor length range needs a slack of (flow - weight) / factor, well above w_max / largest
+    # factor (seed C08-l). Appended after the random cases so that those keep their numbering; own random stream.
+    def _blank(spec, sup, plr, exact=True):
+        return {"cyc": False, "mode": "edge", "wt": "int", "kdelta": 0, "knone": False, "ignore": [], "scale": [], "starts": [], "ends": [], "superset": sup,
+                "plr": plr, "spec": spec, "exact_superset": exact}
+    for f_ in (10, 7):
+        pb = {"nodes": ["s", "a", "t"], "edges": [("s", "a"), ("a", "t")], "flow": {("s", "a"): f_, ("a", "t"): f_}, "planted": [], "wt": "int", "mode": "edge"}
+        for plr_ in ([[[0, 5], [6, 100]], [0.1, 0.9]], [[[0, 5], [6, 100]], [0.9, 0.1]], [[[0, 1], [2, 100]], [1.5, 0.2]]):
+            cases.append(_blank(I.spec_of(pb), [1], plr_))
+        lb_ = {"nodes": ["s", "a", "b", "c", "t"], "edges": [("s", "t"), ("s", "a"), ("a", "b"), ("b", "c"), ("c", "t")],
+               "flow": {("s", "t"): f_, ("s", "a"): f_, ("a", "b"): f_, ("b", "c"): f_, ("c", "t"): f_}, "planted": [], "wt": "int", "mode": "edge"}
+        for plr_ in ([[[0, 2], [3, 100]], [0.9, 0.1]], [[[0, 2], [3, 100]], [0.1, 0.9]], [[[0, 2], [3, 100]], [0.25, 2.0]]):
+            cases.append(_blank(I.spec_of(lb_), [1, 2], plr_))
+    r4 = gen.rng_for("C08supplr", seed)
+    for i in range(12 if tier == "quick" else 60):
+        base = I.dag_edge_base(r4, wt="int", max_edges=8, exact=r4.random() < 0.5)
+        if not any(base["flow"].values()):
+            continue
+        fa, fb = r4.choice([(0.1, 0.9), (0.9, 0.1), (0.2, 1.0), (1.5, 0.25), (0.5, 0.3)])
+        hi_ = r4.choice([1, 2, 3])          # (contiguous ranges: a length without a factor is not a documented input)
+        cases.append(_blank(I.spec_of(base), [r4.choice([1, 1, 2])], [[[0, hi_], [hi_ + 1, 60]], [fa, fb]], exact=False))
     return cases
 
 
